@@ -8,7 +8,10 @@ import vf
 NAME, PKG, TEST, EXE = "player", "./agreement", "TestVerifPlayer", "player"
 HZ = {"pkg": PKG, "test": TEST, "name": NAME}
 
-RULE = ("a case = one real rootRouter+player started at (round 1..30, period 0 or ≤5, step soft) with 4–7 senders (weights 1–4 ×{1,10,1000}, "
+RULE = ("directed first (6 cases, then 1 per 10 generated): quorums that only form through 1–3 EQUIVOCATORS in one (round, period, step) — D votes w, the equivocators vote "
+        "twice (w first or two other values), threshold set so that Σw(D)+Σw(all but the last-packed equivocator) < T ≤ Σw(D)+Σw(equivocators); two canonical cert-step cases "
+        "(X→w, D→w, X→u, Y→a, Y→b), then random step (soft/cert/next), count, first values and arrival order; every emitted bundle (ensure certificate, stageDigest, relayed / "
+        "re-broadcast bundles) is re-verified structurally by the harness. Then: a case = one real rootRouter+player started at (round 1..30, period 0 or ≤5, step soft) with 4–7 senders (weights 1–4 ×{1,10,1000}, "
         "rare whale) and thresholds ≈ 68/70/72/30/66/74 % of the total weight (10 %: all 51 %), DynamicFilterTimeout on 70 %; then 60–200 events "
         "generated ADAPTIVELY from the live player's (round, period, step): whole synchronous periods (1–3 proposal-votes with credentials, "
         "payload present/verified, compound vote+payload with Pending/TaskIndex, filter timeout, soft quorum, cert quorum, late payload), single "
